@@ -34,7 +34,7 @@ THOROUGH_BUDGET_S = 900
 RULE = ("16 source->target pairs in rotation; source files from the part checks' generators (c01.gen_text, c02.gen main/offgrid, "
         "c04.gen, c06.gen_doc, c07.gen) re-drawn until the target supports the inferred key count, plus millisecond charts "
         "(1-5 tempo points, first at 0 or not, on / off measure lines; 0-40 hits and holds on beat grids, whole and fractional "
-        "milliseconds; scroll velocities before / after the first tempo point; timing points listed in / out of time order; osu meters "
+        "milliseconds; scroll velocities before / after the first tempo point; timing points listed in / out of time order; tied tempo points (same time, equal / different tempo, three-way); osu meters "
         "3/4, 5/4, 7/4 lasting whole sections) rendered as osu and Quaver files; BMS targets over "
         "the layouts that have enough lanes, column shift 0-2; non-trivial = at least 3 objects and (a hold or 2 tempo points)")
 ASSUMPTIONS = [
@@ -193,6 +193,12 @@ def gen_ms_chart(rng, tgt, tier, force_keys=None):
                 t = Fr(rng.choice([int(t), float(round(float(t), 1))]))
         if float(t) <= bpms[-1][0]:
             t = Fr(bpms[-1][0]) + 1000
+    # tied tempo points: same time with a different / the same tempo, sometimes three at one time (the later row is in force)
+    if rng.random() < 0.25:
+        j = rng.randrange(len(bpms))
+        t_tie, b_last = bpms[j]
+        extra = [(t_tie, float(rng.choice([b_last, rng.choice(E_BPMS), round(rng.uniform(60, 300), 1)]))) for _ in range(rng.choice([1, 1, 2]))]
+        bpms[j:j] = extra              # the original stays the last row of the tie
     end = Fr(bpms[-1][0]) + (Fr(60000) / Fr(bpms[-1][1])) * 4 * rng.choice([1, 2, 4])
     n = rng.choice([0, 1, 3, 6, 12, 25, 40 if tier == "thorough" else 25])
     before = rng.random() < 0.08          # something before the first tempo point
@@ -443,6 +449,20 @@ def corpus():
     i0 = L.index("[TimingPoints]")
     L[i0 + 1] = "0,300.0,3,1,0,50,1,0"
     c.append(wz)
+    # tied tempo points (seeded class C09-C): same time / different tempo mid-chart and at the first point, equal tempo, three
+    # at one time; the later row is in force.  Judged on every target.
+    ties = [[(0.0, 120.0), (2000.0, 100.0), (2000.0, 150.0)], [(0.0, 150.0), (0.0, 120.0)], [(0.0, 120.0), (2000.0, 150.0), (2000.0, 150.0)],
+            [(0.0, 120.0), (2000.0, 60.0), (2000.0, 100.0), (2000.0, 150.0)]]
+    for bp_t in ties:
+        hs = [(0.0, 0), (1000.0, 1), (2500.0, 2), (4000.0, 3), (5333.0, 3)]
+        for tgt in ("sm", "qua", "bms"):
+            c.append(_osu_case(tgt, bp_t, hs, [(3000.0, 0, 800.0)], shift=0, layout="BME"))
+        for tgt in ("sm", "osu", "bms"):
+            c.append(_qua_case(tgt, bp_t, hs, [(3000.0, 0, 800.0)], shift=0, layout="BME"))
+    o2t = dict(hdr=c07._hdr(120.0), levels=[[dict(m=0, ch=1, ev=[150.0]), dict(m=0, ch=2, ev=[c07.H, c07.Z]), dict(m=1, ch=8, ev=[c07.HD, c07.TL]),
+                                            dict(m=3, ch=5, ev=[c07.H])], [], []], tail=[])
+    for tgt in ("osu", "qua", "sm", "bms"):
+        c.append(dict(claim=f"o2j->{tgt}", src="o2j", tgt=tgt, origin="corpus", source=o2t, opts=dict(shift=0, layout="BME")))
     # D15 witness: 6K dance-solo -> osu
     rows6 = "\n".join(["100000", "010000", "001000", "000100", "000010", "000001", "200000", "300001"])
     c.append(dict(claim="sm->osu", src="sm", tgt="osu", origin="corpus", source=dict(text=SM_TEXT % ("dance-solo", rows6)), opts={}))
@@ -745,8 +765,8 @@ def _run(case, drv):
             hyp.append("two rows of one column at the same time")
         if f["neg_length"]:
             hyp.append("hold with negative length")
-        if not f["bpm_positive"] or f["first_tempo"] is None or (tgt in ("sm", "bms") and not f["bpm_times_distinct"]):
-            hyp.append("tempo list: non-positive tempo / empty / two points at one time into a beat-based file")
+        if not f["bpm_positive"] or f["first_tempo"] is None:
+            hyp.append("tempo list: non-positive tempo / empty")
         if tgt in ("sm", "bms"):
             if f["before_first_tempo"]:
                 hyp.append("object before the first tempo point")
@@ -757,6 +777,8 @@ def _run(case, drv):
                 kf_pred.append("D35")
             if not f["bpm_3dec"]:
                 kf_pred.append("D06")
+            if f["tempo_tie_unequal"]:
+                kf_pred.append("D45")
     res = "ms" if tgt in ("osu", "qua") else ([[1, 96], [1, 192]] if tgt == "sm" else [[1, 192], [1, 192]])
     for a in srcs:
         cr = drv.call("c09.crowded", res=res, a=dict(hits=a["hits"], holds=a["holds"], bpms=a["bpms"]))["ok"]
